@@ -392,7 +392,7 @@ func c143(c *an.Ctx, p *an.Prog) {
 			if !(nw.Args[0].Op == "load" && nw.Args[0].Args[0].Aux == "Cost") {
 				bad = append(bad, "scrypt cost is "+nw.Args[0].K+", not the cost field")
 			}
-			if nw.Args[1].K != extractOf(dec, 0).K || !extractNil(s, dec, 1) || !(dec.Args[1].Op == "load" && dec.Args[1].Args[0].Aux == "HmacKeyBase64") {
+			if stripClone(nw.Args[1]).K != extractOf(dec, 0).K || !extractNil(s, dec, 1) || !(dec.Args[1].Op == "load" && dec.Args[1].Args[0].Aux == "HmacKeyBase64") {
 				bad = append(bad, "HMAC key is not the checked decode of the hmackey field")
 			}
 			okLen := false
@@ -426,10 +426,12 @@ func c143(c *an.Ctx, p *an.Prog) {
 				}
 			}
 			// scryptauth.New keeps the key slice itself, not a copy: nothing in the constructor may write the buffer
-			key := extractOf(dec, 0)
+			// (a private copy handed to New is a different buffer: then only writes before the copy was taken matter)
+			decoded, keyBuf := extractOf(dec, 0), nw.Args[1]
+			afterNew := false
 			rooted := func(t *an.Term) bool {
 				for t != nil {
-					if t.K == key.K {
+					if t.K == keyBuf.K || !afterNew && t.K == decoded.K {
 						return true
 					}
 					if (t.Op == "slice" || t.Op == "indexaddr") && len(t.Args) > 0 {
@@ -441,7 +443,6 @@ func c143(c *an.Ctx, p *an.Prog) {
 				return false
 			}
 			retained := scryptauthRetainsKey(p)
-			afterNew := false
 			for _, e := range s.Events {
 				if e.Kind == "call" && e.Callee == "gopkg.in/spreadspace/scryptauth.v2.New" {
 					afterNew = true
@@ -455,7 +456,7 @@ func c143(c *an.Ctx, p *an.Prog) {
 					if e.Args[0].Op == "indexaddr" && rooted(e.Args[0]) {
 						bad = append(bad, "the decoded HMAC key buffer (kept by scryptauth.New, not copied) is overwritten in the constructor")
 					}
-				case "call", "defer":
+				case "call": // (a deferred call appears here when it runs, at the exit)
 					for i, a := range e.Args {
 						if !rooted(a) {
 							continue
